@@ -17,6 +17,7 @@ import (
 	_ "hv/props/c02"
 	_ "hv/props/c04"
 	_ "hv/props/c11"
+	_ "hv/props/c17"
 	_ "hv/props/c05"
 	_ "hv/props/c10"
 )
